@@ -10,8 +10,9 @@ text and every behaviour of the device that is not itself a function of the secr
 
 Secrets and their alphabets
 * login password `p` — **any** byte string (it only ever travels through `url.QueryEscape`);
-* PAN-OS API key `k` — `Safe k`: no `&` and no newline (PAN-OS keys are base64).  Both exclusions are
-  necessary: `mask_api_amp_counterexample`, `mask_body_newline_counterexample`;
+* PAN-OS API key `k` — **any** byte string in the session logs (since fixes c4a38c5, bb66815; before, a key
+  with `&` or a line break was partly logged: `api_key_amp_counterexample_before_fix`,
+  `key_newline_counterexample_before_fix`);
 * NSX session token / cookie, SSH password — any byte string.
 
 What is **false** of the unchanged code (finding F-C17): after a successful PAN-OS login a transport
@@ -35,17 +36,18 @@ theorem mask_pass_independent (pre post : Str) {e1 e2 : Str} (h1 : Safe e1) (h2 
     maskPass (pre ++ (litPass ++ (e1 ++ '&' :: post))) = maskPass (pre ++ (litPass ++ (e2 ++ '&' :: post))) :=
   maskLazy_independent litPass true safe_litPass h1 h2 pre post
 
-/-- Every later request URL (`httpPrefixGetLog`): the logged URL is the same for all keys. -/
-theorem mask_api_uri_independent (addr uri : Str) {k1 k2 : Str} (h1 : Safe k1) (h2 : Safe k2) :
-    doLog (maskApi (urlPrefix addr k1 ++ uri)) = doLog (maskApi (urlPrefix addr k2 ++ uri)) := by
-  rw [maskApi_url addr uri h1 h2]
+/-- Every later request URL (`httpPrefixGetLog`): the logged URL is the same for ALL keys (it is built
+from the prefix with the key already replaced, fix c4a38c5). -/
+theorem mask_api_uri_independent (addr uri k1 k2 : Str) (r : Reply) :
+    (prefixGet (logPrefix addr) (urlPrefix addr k1) uri r).1 = (prefixGet (logPrefix addr) (urlPrefix addr k2) uri r).1 :=
+  prefixGet_log addr uri k1 k2 r
 
-/-- `.login`, second entry of `getAPIKey`: the logged keygen response is the same for all keys,
-whatever surrounds the `<key>` element. -/
-theorem mask_body_independent (pre post : Str) {k1 k2 : Str} (h1 : NoNl k1) (h2 : NoNl k2) :
+/-- `.login`, second entry of `getAPIKey`: the logged keygen response is the same for ALL keys (line breaks
+included, fix bb66815), whatever surrounds the `<key>` element. -/
+theorem mask_body_independent (pre post k1 k2 : Str) :
     doLog (maskKey (keyBody pre k1 post)) = doLog (maskKey (keyBody pre k2 post)) := by
   unfold keyBody
-  rw [maskKey_independent h1 h2 pre post]
+  rw [maskKey_independent k1 k2 pre post]
 
 /-- The error `getAPIKey` returns after a transport error (it ends as `WARNING>>> API key Get "…"`)
 is the same for all passwords. -/
@@ -60,43 +62,39 @@ theorem keygen_independent (addr user p1 p2 : Str) (r : Reply) :
 
 /-- `getAPIKey` when the keygen request fails AFTER the `<key>` element arrived (connection lost while
 the rest of the body is read): log entries and returned error are the same for all keys. -/
-theorem keygen_truncated_independent (addr user pass pre post m : Str) {k1 k2 : Str} (h1 : NoNl k1) (h2 : NoNl k2) :
+theorem keygen_truncated_independent (addr user pass pre post m k1 k2 : Str) :
     keygen addr user pass (.trunc (keyBody pre k1 post) m) = keygen addr user pass (.trunc (keyBody pre k2 post) m) :=
-  keygen_log_key_independent_trunc addr user pass pre post m h1 h2
+  keygen_log_key_independent_trunc addr user pass pre post m k1 k2
 
 /-- … and for a status other than 200 whose body holds a `<key>` element the `.login` entries are the
 same (the returned error quotes the rejected body; no key was obtained in that case). -/
-theorem keygen_status_log_independent (addr user pass pre post : Str) (c : Nat) {k1 k2 : Str}
-    (h1 : NoNl k1) (h2 : NoNl k2) :
+theorem keygen_status_log_independent (addr user pass pre post : Str) (c : Nat) (k1 k2 : Str) :
     (keygen addr user pass (.status c (keyBody pre k1 post))).1 =
       (keygen addr user pass (.status c (keyBody pre k2 post))).1 :=
-  keygen_log_key_independent_status addr user pass pre post c h1 h2
-
-/-- `httpPrefixGetLog`: both log entries, for every reply. -/
-theorem prefix_get_log_independent (addr uri : Str) {k1 k2 : Str} (h1 : Safe k1) (h2 : Safe k2) (r : Reply) :
-    (prefixGet (urlPrefix addr k1) uri r).1 = (prefixGet (urlPrefix addr k2) uri r).1 :=
-  prefixGet_log addr uri h1 h2 r
+  keygen_log_key_independent_status addr user pass pre post c k1 k2
 
 /-- `httpPrefixGetLog`: the returned error, unless the reply is a transport error. -/
 theorem prefix_get_error_independent_partial (addr uri k1 k2 : Str) (r : Reply) (hr : r.isTerr = false) :
-    (prefixGet (urlPrefix addr k1) uri r).2 = (prefixGet (urlPrefix addr k2) uri r).2 :=
+    (prefixGet (logPrefix addr) (urlPrefix addr k1) uri r).2 = (prefixGet (logPrefix addr) (urlPrefix addr k2) uri r).2 :=
   prefixGet_err addr uri k1 k2 r hr
 
 /-- F-C17 at the level of the function: the error returned for a transport error contains the key. -/
 theorem transport_error_reveals_key (addr uri k msg : Str) (hk : ∀ c ∈ k, c ≠ '"' ∧ c ≠ '\\') :
-    ∃ a b, (prefixGet (urlPrefix addr k) uri (.terr msg)).2 = some (a ++ k ++ b) := by
+    ∃ a b, (prefixGet (logPrefix addr) (urlPrefix addr k) uri (.terr msg)).2 = some (a ++ k ++ b) := by
   refine ⟨sGet ++ ' ' :: '"' :: goQuote (addr ++ "/api/?key=".toList), '&' :: goQuote uri ++ '"' :: ':' :: ' ' :: msg, ?_⟩
   simp only [prefixGet, urlError, urlPrefix, goQuote_append, goQuote_id hk, goQuote_cons_amp, List.append_assoc,
     List.cons_append, List.nil_append]
 
-/-- A key with `&` is outside what `apiRE` hides (the part behind the `&` stays). -/
-theorem mask_api_amp_counterexample :
-    maskApi (urlPrefix "https://h".toList "A&Secret1".toList ++ "type=op".toList) ≠
-      maskApi (urlPrefix "https://h".toList "A&Secret2".toList ++ "type=op".toList) := by decide
+/-- **F-C17c (fixed, c4a38c5)**: with the regexp `[?]key=.*?&` the logged request URL showed what stands
+behind an `&` of the key. -/
+theorem api_key_amp_counterexample_before_fix :
+    maskApiOld (urlPrefix "https://h".toList "A&Secret1".toList ++ "type=op".toList) ≠
+      maskApiOld (urlPrefix "https://h".toList "A&Secret2".toList ++ "type=op".toList) := by decide
 
-/-- A key with a newline is outside what `keyRE` hides. -/
-theorem mask_body_newline_counterexample :
-    maskKey (keyBody [] "A\nSecret1".toList []) ≠ maskKey (keyBody [] "A\nSecret2".toList []) := by decide
+/-- **F-C17d (fixed, bb66815)**: without flag `s` the regexp `<key>.*</key>` left a key with a line break
+unmasked in `.login`. -/
+theorem key_newline_counterexample_before_fix :
+    maskKeyOld (keyBody [] "A\nSecret1".toList []) ≠ maskKeyOld (keyBody [] "A\nSecret2".toList []) := by decide
 
 /-! ## NSX -/
 
@@ -224,12 +222,10 @@ example :
 two keys — login and HA check succeed, the config request ends with a dropped connection. -/
 theorem sinks_independent_counterexample :
     ∃ (addr user pass name ip k1 k2 : Str) (reqs : List Req) (reps : List Reply),
-      Safe k1 ∧ Safe k2 ∧
       allSinks (panosRun addr user pass name ip (.ok (keyBody [] k1 [])) k1 reqs reps) ≠
         allSinks (panosRun addr user pass name ip (.ok (keyBody [] k2 [])) k2 reqs reps) :=
   ⟨"https://h".toList, "admin".toList, "pw".toList, "fw".toList, "10.1.1.1".toList, "KEY1".toList, "KEY2".toList,
-    [{ log := .config, uri := "type=config".toList, wrap := [] }], [.ok [], .terr "EOF".toList],
-    by unfold Safe; decide, by unfold Safe; decide, by decide⟩
+    [{ log := .config, uri := "type=config".toList, wrap := [] }], [.ok [], .terr "EOF".toList], by decide⟩
 
 /-- … and the run log line is exactly the pinned shape `ERROR>>> Get "…/api/?key=<key>&…": EOF`. -/
 theorem sinks_counterexample_line :
@@ -238,18 +234,18 @@ theorem sinks_counterexample_line :
         [{ log := .config, uri := "type=config".toList, wrap := [] }] [.ok [], .terr "EOF".toList]).runlog =
       ["ERROR>>> Get \"https://h/api/?key=KEY1&type=config\": EOF".toList] := by decide
 
-/-- **Whole PAN-OS runs, everything except the F-C17 path**: for all passwords, all keys over the
-key alphabet, every keygen response around `<key>K</key>`, every request list and every sequence of
+/-- **Whole PAN-OS runs, everything except the F-C17 path**: for all passwords, ALL keys (any bytes),
+every keygen response around `<key>K</key>`, every request list and every sequence of
 replies that does not run into a transport error after login and HA check — all sinks (session logs,
 run log, history `RES:` lines, stdout) are equal. -/
-theorem sinks_independent_partial (addr user p1 p2 name ip pre post : Str) {k1 k2 : Str}
-    (h1 : Safe k1) (h2 : Safe k2) (reqs : List Req) (reps : List Reply)
+theorem sinks_independent_partial (addr user p1 p2 name ip pre post k1 k2 : Str)
+    (reqs : List Req) (reps : List Reply)
     (hpath : leakPath (.ok (keyBody pre k1 post)) reqs reps = false) :
     allSinks (panosRun addr user p1 name ip (.ok (keyBody pre k1 post)) k1 reqs reps) =
       allSinks (panosRun addr user p2 name ip (.ok (keyBody pre k2 post)) k2 reqs reps) := by
   congr 1
   unfold panosRun
-  rw [keygen_pass_independent addr user p1 p2, keygen_key_independent addr user p2 pre post h1.noNl h2.noNl]
+  rw [keygen_pass_independent addr user p1 p2, keygen_key_independent addr user p2 pre post k1 k2]
   cases hkg : keygen addr user p2 (.ok (keyBody pre k2 post)) with
   | mk lg e =>
     cases e with
@@ -259,11 +255,11 @@ theorem sinks_independent_partial (addr user p1 p2 name ip pre post : Str) {k1 k
       cases reps with
       | nil => rfl
       | cons ha rest =>
-        simp only [prefixGet_log addr sHaUri h1 h2 ha]
+        simp only [prefixGet_log addr sHaUri k1 k2 ha]
         cases ha with
         | ok b =>
           simp only
-          exact panosReqs_independent addr h1 h2 reqs rest _ (by simpa [leakPath] using hpath)
+          exact panosReqs_independent addr k1 k2 reqs rest _ (by simpa [leakPath] using hpath)
         | terr m => rfl
         | status c b => rfl
         | fail b m => rfl
@@ -271,11 +267,11 @@ theorem sinks_independent_partial (addr user p1 p2 name ip pre post : Str) {k1 k
 
 /-- A transport error of the HA status request (the request right after a successful keygen) reveals
 nothing: `checkHA` drops the error. -/
-theorem ha_check_transport_error_independent (addr user p1 p2 name ip pre post m : Str) {k1 k2 : Str}
-    (h1 : Safe k1) (h2 : Safe k2) (reqs : List Req) (rest : List Reply) :
+theorem ha_check_transport_error_independent (addr user p1 p2 name ip pre post m k1 k2 : Str)
+    (reqs : List Req) (rest : List Reply) :
     allSinks (panosRun addr user p1 name ip (.ok (keyBody pre k1 post)) k1 reqs (.terr m :: rest)) =
       allSinks (panosRun addr user p2 name ip (.ok (keyBody pre k2 post)) k2 reqs (.terr m :: rest)) :=
-  sinks_independent_partial addr user p1 p2 name ip pre post h1 h2 reqs (.terr m :: rest) rfl
+  sinks_independent_partial addr user p1 p2 name ip pre post k1 k2 reqs (.terr m :: rest) rfl
 
 /-! ## the key is what the (modelled) parser extracts — no assumption `parseAPIKey body = K` -/
 
@@ -294,7 +290,7 @@ extracts from the keygen answer: all sinks equal, outside the F-C17 path. -/
 theorem sinks_independent_parsed_partial (addr user p1 p2 name ip : Str)
     {w0 w1 w2 w3 w4 w5 w6 w7 : Str} (q : Char) {k1 k2 : Str} (tail : Str)
     (h0 : PWs w0) (h1 : PWs w1) (h2 : PWs w2) (h3 : PWs w3) (h4 : PWs w4) (h5 : PWs w5) (h6 : PWs w6) (h7 : PWs w7)
-    (hq : q = '"' ∨ q = '\'') (hk1 : Plain k1) (hk2 : Plain k2) (hs1 : Safe k1) (hs2 : Safe k2)
+    (hq : q = '"' ∨ q = '\'') (hk1 : Plain k1) (hk2 : Plain k2)
     (reqs : List Req) (reps : List Reply)
     (hpath : leakPath (.ok []) reqs reps = false) :
     allSinks (panosRunParsed addr user p1 name ip (stdKeygen w0 w1 w2 q w3 w4 w5 k1 w6 w7 tail) reqs reps) =
@@ -308,7 +304,7 @@ theorem sinks_independent_parsed_partial (addr user p1 p2 name ip : Str)
     cases reps with
     | nil => rfl
     | cons r rs => cases r <;> rfl
-  exact sinks_independent_partial addr user p1 p2 name ip pre post hs1 hs2 reqs reps (hl.trans hpath)
+  exact sinks_independent_partial addr user p1 p2 name ip pre post k1 k2 reqs reps (hl.trans hpath)
 
 example : PWs [' ', '\n', '\t'] := by unfold PWs; decide
 example : Plain "LUFRPT14MW5xOEo1R09KVlBZ+/=".toList := by unfold Plain; decide
@@ -335,14 +331,14 @@ theorem sinks_independent_login_failure (addr user p1 p2 name ip k1 k2 : Str) (k
 F-C17 path, NSX and the SSH devices unconditionally. -/
 theorem sinks_independent :
     (∀ (addr user p1 p2 name ip pre post k1 k2 : Str) (reqs : List Req) (reps : List Reply),
-      Safe k1 → Safe k2 → leakPath (.ok (keyBody pre k1 post)) reqs reps = false →
+      leakPath (.ok (keyBody pre k1 post)) reqs reps = false →
       allSinks (panosRun addr user p1 name ip (.ok (keyBody pre k1 post)) k1 reqs reps) =
         allSinks (panosRun addr user p2 name ip (.ok (keyBody pre k2 post)) k2 reqs reps)) ∧
     (∀ (pre user name p1 p2 t1 t2 c1 c2 : Str) (lg : NsxLogin) (reqs : List NsxReq) (reps : List Reply),
       allSinks (nsxRun pre user p1 t1 c1 name lg reqs reps) = allSinks (nsxRun pre user p2 t2 c2 name lg reqs reps)) ∧
     (∀ ops1 ops2 : List Op, ops1.map Op.erase = ops2.map Op.erase → allSinks (sshRun ops1) = allSinks (sshRun ops2)) :=
-  ⟨fun addr user p1 p2 name ip pre post _ _ reqs reps h1 h2 hp =>
-      sinks_independent_partial addr user p1 p2 name ip pre post h1 h2 reqs reps hp,
+  ⟨fun addr user p1 p2 name ip pre post k1 k2 reqs reps hp =>
+      sinks_independent_partial addr user p1 p2 name ip pre post k1 k2 reqs reps hp,
     nsx_sinks_independent, ssh_sinks_independent⟩
 
 /-! ## the hypotheses are satisfiable -/
@@ -362,9 +358,8 @@ example : ∀ c ∈ "LUFRPT=".toList, c ≠ '"' ∧ c ≠ '\\' := by decide
 def obligations : List Lean.Name := [
   ``mask_uri_independent, ``mask_pass_independent, ``mask_api_uri_independent, ``mask_body_independent,
   ``mask_error_independent, ``keygen_independent, ``keygen_truncated_independent,
-  ``keygen_status_log_independent, ``ha_check_transport_error_independent, ``prefix_get_log_independent,
-  ``prefix_get_error_independent_partial, ``transport_error_reveals_key,
-  ``mask_api_amp_counterexample, ``mask_body_newline_counterexample,
+  ``keygen_status_log_independent, ``ha_check_transport_error_independent,   ``prefix_get_error_independent_partial, ``transport_error_reveals_key,
+  ``api_key_amp_counterexample_before_fix, ``key_newline_counterexample_before_fix,
   ``nsx_login_log_independent, ``nsx_sinks_independent,
   ``ssh_log_is_device_output_only, ``ssh_sinks_independent, ``ssh_login_log_is_expected_output,
   ``ssh_program_independent, ``ssh_session_independent, ``password_sent_only_at_password_prompt,
